@@ -57,6 +57,22 @@ def directed_metric(rng, csys, choice, kind):
        'high'    : one short reciprocal axis, so that the shell reaches indices >= 10 along it;
        'neardeg' : nearly equal axes (relative difference ~1e-6), so that inequivalent reflections are separated by < 1e-6 in sin(theta)/lambda"""
     r = lambda lo, hi: rng.randint(lo, hi)
+    if kind == 'veryhigh':
+        # one very short reciprocal axis (c ~ 100 x the others): indices beyond 100 along it while the other two stay at 0, +-1
+        big = r(2500, 4000)
+        if csys == 'cubic' or csys == 'triclinic':
+            return None, None
+        if csys in ('hexagonal', 'trigonal') and choice != 'rhombohedral':
+            return [[2 * big, big, 0], [big, 2 * big, 0], [0, 0, 1]], 2 * big + 11500
+        if csys == 'tetragonal':
+            return [[big, 0, 0], [0, big, 0], [0, 0, 1]], big + 11500
+        if csys == 'orthorhombic':
+            d = [big, big + r(50, 900), 1]
+            rng.shuffle(d)
+            return [[d[0], 0, 0], [0, d[1], 0], [0, 0, d[2]]], min(x for x in d if x > 1) + 11500
+        if csys == 'monoclinic':
+            return rng.choice([([[big, 0, 0], [0, 1, 0], [0, 0, big + r(50, 900)]], big + 11500), ([[big, 0, 0], [0, big + r(50, 900), 0], [0, 0, 1]], big + 11500)])
+        return None, None
     if kind == 'high':
         if csys == 'cubic':
             return [[1, 0, 0], [0, 1, 0], [0, 0, 1]], 100
@@ -85,8 +101,27 @@ def make_directed_case(rng, s, kind):
     K, M = directed_metric(rng, s.crystal_system, s.cell_choice, kind)
     if K is None:
         return None
-    S = 400.0 if kind == 'high' else 400.0 * 100000
+    S = 400.0 if kind == 'high' else (40000.0 if kind == 'veryhigh' else 400.0 * 100000)
     return dict(K=K, S=S, cell=cell_of(K, S), M=M, m=None, lo=0.0, hi=0.5 * math.sqrt((M + 0.5) / S), scaled=False, kind=kind)
+
+
+def call_forms(s, no, ch):
+    """the ways a caller can name the setting: by number and setting, by the name the table reports (R...r selects the rhombohedral setting itself),
+    and by the plain name together with the setting"""
+    plain = s.name[:-1] if (s.cell_choice == 'rhombohedral' and s.name.lower().endswith('r')) else s.name
+    return [('sgno=%d, cell_choice=%r' % (no, ch), dict(sgno=no, cell_choice=ch)), ('sgname=%r' % s.name, dict(sgname=s.name)),
+            ('sgname=%r, cell_choice=%r' % (plain, ch), dict(sgname=plain, cell_choice=ch))]
+
+
+def plan(k, s, no, ch, case, tools, laue):
+    """which (module, call form) pairs a search case is run with: one of each in rotation; both modules for the directed cases; every combination
+    for one rhombohedral case in three"""
+    forms = call_forms(s, no, ch)
+    if s.cell_choice == 'rhombohedral' and k % 3 == 0:
+        return [(m, f) for m in (tools, laue) for f in forms]
+    if case.get('kind'):
+        return [(tools, forms[k % 3]), (laue, forms[(k + 1) % 3])]
+    return [((tools, laue)[k % 2], forms[(k // 2) % 3])]
 
 
 def make_case(rng, s):
@@ -215,7 +250,7 @@ def search_cases(ctx):
     for csys, lst in sorted(by_sys.items()):
         picks = lst if (ctx.broken or not ctx.quick) and len(lst) <= 80 else rng.sample(lst, min(len(lst), 2 if ctx.quick else 12))
         for no, s in picks:
-            for kind in ('high', 'neardeg'):
+            for kind in ('high', 'neardeg', 'veryhigh'):
                 c = make_directed_case(rng, s, kind)
                 if c is not None:
                     out.append((no, 'standard', s, c))
